@@ -296,7 +296,7 @@ def audit_model():
 
 ALT = {
     "BaseProject": {
-        "init_datetime": lambda m: datetime.datetime(2031, 5, 6, 7, 8, 9), "unit_timedelta": lambda m: datetime.timedelta(minutes=7), "absence_time_list": lambda m: [1, 3],
+        "init_datetime": lambda m: datetime.datetime(2031, 5, 6, 7, 8, 9), "unit_timedelta": [lambda m: datetime.timedelta(minutes=7), lambda m: datetime.timedelta(days=1, hours=2), lambda m: datetime.timedelta(seconds=0.25)], "absence_time_list": lambda m: [1, 3],
         "perform_auto_task_while_absence_time": lambda m: True, "time": lambda m: 7, "cost_list": lambda m: [1.0, 2.5], "simulation_mode": lambda m: SimulationMode.BACKWARD,
         "status": lambda m: BaseProjectStatus.FINISHED_FAILURE, "product": None, "organization": None, "workflow": None,
     },
@@ -312,7 +312,8 @@ ALT = {
         "allocated_facility_id_record": lambda m: [[], ["F0"]],
     },
     "BaseSubProjectTask": {
-        "file_path": lambda m: "some/where.json", "unit_timedelta": lambda m: datetime.timedelta(minutes=3), "read_json_file": lambda m: True, "remove_absence_time_list": lambda m: True,
+        "file_path": lambda m: "some/where.json",
+        "unit_timedelta": [lambda m: datetime.timedelta(minutes=3), lambda m: datetime.timedelta(days=2, seconds=5), lambda m: datetime.timedelta(seconds=1, microseconds=500000)], "read_json_file": lambda m: True, "remove_absence_time_list": lambda m: True,
     },
     "BaseComponent": {
         "name": None, "ID": None, "parent_component_list": None, "child_component_list": None, "targeted_task_list": lambda m: [m.byname["T0"], m.byname["T1"]], "space_size": lambda m: 2.5,
@@ -376,7 +377,16 @@ def audit(col, tmpdir):
             if prm not in ALT[cname]:
                 col.extra["audit-unclassified-parameter:%s.%s" % (cname, prm)] += 1
                 continue
-            gen = ALT[cname][prm]
+            gens = ALT[cname][prm]
+            if not isinstance(gens, list):
+                gens = [gens]
+            for gi, gen in enumerate(gens):
+                audit_one(col, tmpdir, cname, prm, gen, gi)
+
+
+def audit_one(col, tmpdir, cname, prm, gen, gi):
+    if True:
+        if True:
             m = audit_model()
             # the sub-project task must be exportable while other classes are audited
             sub = m.byname["S2"]
@@ -389,7 +399,7 @@ def audit(col, tmpdir):
             want = norm(getattr(obj, prm))
             col.evaluations += 1
             col.checks["c16.audit"] += 1
-            key = hash(("audit", cname, prm))
+            key = hash(("audit", cname, prm, gi))
             col.states.add(key)
             col.transitions.add(key)
             col.nontrivial.add(key)
@@ -399,7 +409,7 @@ def audit(col, tmpdir):
                 p2 = load(path)
             except Exception as e:
                 col.violation({"property": "C16", "sig": "C16:audit-save/load-raised:%s.%s:%s" % (cname, prm, type(e).__name__), "kind": "audit", "cls": cname, "param": prm, "detail": {"error": repr(e)}})
-                continue
+                return
             o2 = find_loaded(p2, cname, obj)
             got = norm(getattr(o2, prm, "<attribute missing>")) if o2 is not None else "<object missing>"
             if got != want:
